@@ -93,7 +93,7 @@ func startPD(bin, workdir string, pass bool, id, ts uint64) (*pdProc, error) {
 	}()
 	select {
 	case <-ready:
-	case <-time.After(15 * time.Second):
+	case <-time.After(30 * time.Second):
 		cmd.Process.Kill()
 		cmd.Wait()
 		return nil, fmt.Errorf("nokv pd did not start")
@@ -120,7 +120,7 @@ func pdBootCase(bin, base string, d bootDesc) (corr.Case, error) {
 	}
 	defer os.RemoveAll(root)
 	w := filepath.Join(root, "w")
-	ctx, cancel := context.WithTimeout(context.Background(), 30*time.Second)
+	ctx, cancel := context.WithTimeout(context.Background(), 60*time.Second)
 	defer cancel()
 	p1, err := startPD(bin, w, d.Pass1, d.ID1, d.TS1)
 	if err != nil {
